@@ -689,6 +689,18 @@ def attrs_set(attrs, name, value):
     return attrs + [[name, value]]
 
 
+def map_text(n, how):
+    """the node with every text in it mapped (the result of the function is a plain string for `rev`,
+    keeps its type for `dup`)"""
+    if n[0] == 't':
+        if how == 'rev':
+            return ['t', n[1][::-1]]
+        return ['t', n[1] + n[1]] + n[2:]
+    if n[0] == 'e':
+        return ['e', n[1], n[2], [map_text(k, how) for k in n[3]]]
+    return n
+
+
 def spec_apply(doc, sel, selattrs, op):
     """expected JSON events of `Transformer(path).<op>` given the selected node ids.
     Returns None when the documented effect is not defined here (attribute selections with
@@ -746,8 +758,10 @@ def spec_apply(doc, sel, selattrs, op):
         elif name == 'empty':
             out.append(['S', n[1], n[2]])
             out.append(['E', n[1]])
-        elif name in ('copy', 'select'):
+        elif name in ('copy', 'select', 'trace'):
             emit_nodes([n])
+        elif name == 'maptext':
+            emit_nodes([map_text(n, op[1])])
         else:
             raise ValueError(name)
 
@@ -770,6 +784,8 @@ def spec_apply(doc, sel, selattrs, op):
                 emit_nodes(op[3])
             emit_nodes(nodes)
             out.append(['E', w])
+        elif name == 'maptext':
+            emit_nodes([map_text(k, op[1]) for k in nodes])
         else:
             emit_nodes(nodes)      # element-only operations leave text/comment selections alone
 
@@ -860,6 +876,10 @@ def gen_op(rng, bufs, doc=None):
         return ['substitute', rng.choice(['t', 'some', 'x']), rng.choice(['Q', '']), rng.choice([0, 1])]
     if r < 0.89:
         return ['filter', rng.choice(['id', 'dropc'])]
+    if r < 0.91:
+        return ['maptext', rng.choice(['rev', 'dup'])]
+    if r < 0.925:
+        return ['trace']
     return [rng.choice(SIMPLE)]
 
 
